@@ -640,9 +640,10 @@ IncludeIter(nodes, key, items, i, nsIdx, st) ==
   ELSE LET s1 == [st EXCEPT !.scopes = [@ EXCEPT ![nsIdx] = HPut(@, key, items[i])]]
        IN IncludeIter(nodes, key, items, i + 1, nsIdx, ExecTemplate(nodes, LoopTick(s1)))
 
-\* a context that sees only `ns` and the global layers (RenderContext.copy)
+\* a context that sees only `ns` and the data the template was rendered with (RenderContext.copy):
+\* not the arguments of an enclosing partial, not what an enclosing template assigned
 Isolated(st, ns, disabled) ==
-  [Fresh(st) EXCEPT !.locals = <<>>, !.carryvals = LocalVals(st), !.scopes = <<>>, !.layers = <<ns>> \o st.layers,
+  [Fresh(st) EXCEPT !.locals = <<>>, !.carryvals = LocalVals(st), !.scopes = <<>>, !.layers = <<ns>> \o st.root,
              !.counters = <<>>, !.cycles = <<>>, !.stop = <<>>, !.loops = <<>>, !.macros = <<>>,
              !.disabled = disabled, !.cdepth = st.cdepth + 1, !.intr = "", !.stacks = <<>>]
 
@@ -803,7 +804,7 @@ ExecBlockTag(n, st) ==
 
 -----------------------------------------------------------------------------
 InitState(tpls, data, cfg) ==
-  [out |-> "", locals |-> <<>>, scopes |-> <<>>, layers |-> data, counters |-> <<>>,
+  [out |-> "", locals |-> <<>>, scopes |-> <<>>, layers |-> data, root |-> data, counters |-> <<>>,
    cycles |-> <<>>, stop |-> <<>>, loops |-> <<>>, err |-> "", intr |-> "",
    cfg |-> cfg, tpls |-> tpls, macros |-> <<>>, disabled |-> {}, cdepth |-> 0,
    stacks |-> <<>>, tname |-> "", base |-> 0, null |-> FALSE, lens |-> <<>>, lpcnt |-> <<>>,
